@@ -27,6 +27,7 @@ struct Hist {
     bool external;           // object came from an external file (labels may legitimately differ)
     bool specialFloats;
     bool analogIncomplete;   // loaded from a file whose ANALOG group lacks mandatory parameters (see run())
+    bool columnOverGaps, columnOverGapsReported;   // a column was added while empty gap frames existed (recorded finding, see checkC05)
     bool offSpec;            // an undocumented (unspecified) call was accepted: shape agreement is no longer judged
     bool namedChannels;      // this history's caller names its channels (README leaves them unnamed)
     std::vector<Frame> callerFrames;          // caller-side frame objects handed over earlier (C08)
@@ -58,7 +59,7 @@ struct Hist {
     bool opCopyOut();
 
     // helpers
-    Frame buildFrame(int deviation, std::string* devName, SFrame* intended);
+    Frame buildFrame(int deviation, std::string* devName, SFrame* intended, int forceSub = -1);
     void afterMutator(const std::string& op, const Outcome& oc, bool isPublicMutator = true);
     void checkC05(const Snap& s, const std::string& op);
     void checkFrameRelation(const std::string& op, const Snap& cur, size_t target, bool append, const SFrame& submitted, size_t idxArg);
